@@ -9,40 +9,54 @@ Local Open Scope Q_scope.
 
 (** * 0. toolkit *)
 
-(** the walk never leaves the cumulative-weight vector, whatever the pointers (sorted or not) *)
-Lemma walk_bound ptrs : forall cs ix, Forall (fun j => (j <= ix + (length cs - 1))%nat) (sus_walk cs ix ptrs).
-Proof.
-  induction ptrs as [|p rest IH]; intros cs ix; [constructor|].
-  cbn [sus_walk]. rewrite advance_locate. cbv beta iota. pose proof (locate_bound cs p) as HL.
-  constructor; [lia|].
-  eapply Forall_impl; [|apply IH]. cbv beta. intros a Ha. rewrite skipn_length in Ha. lia.
-Qed.
+(** the walk never leaves the cumulative-weight vector it is given, whatever the pointers (sorted or not): this is
+    [walk_bound] of Proofs/C17_Sampling.v *)
 
-(** what [sus_finish] returns: as many draws as pointers, every one of them an entry of [order] *)
-Lemma sus_finish_spec order k cs ptrs perm sel :
-  sus_finish order k cs ptrs perm = Some sel -> length cs = length order -> length ptrs = k ->
+(** what [sus_finish] returns (since commits f3dafbe4, eabf766a: [np] = number of positive weights, the walk runs along the
+    first [np] cumulative sums only, and an output size of zero gives the empty selection): as many draws as pointers,
+    every one of them an entry of [order]; a positive output size succeeds only on a non-empty weight vector.
+    (Before, success implied 0 < k; now k = 0 succeeds with no draw, so that conjunct became the implication below.) *)
+Lemma sus_finish_spec order k np cs ptrs perm sel :
+  sus_finish order k np cs ptrs perm = Some sel -> length cs = length order -> length ptrs = k ->
   Permutation perm (seq 0 k) ->
-  (0 < k)%nat /\ length sel = k /\ forall i, In i sel -> In i order.
+  ((0 < k)%nat -> (0 < length order)%nat) /\ length sel = k /\ forall i, In i sel -> In i order.
 Proof.
-  intros H Lcs Lptrs Hperm. unfold sus_finish in H. destruct cs as [|c cs']; [discriminate|].
-  destruct (Nat.eqb_spec k 0) as [E0|N0]; [discriminate|]. injection H as H.
-  set (walk := sus_walk (c :: cs') 0 ptrs) in *.
+  intros H Lcs Lptrs Hperm. unfold sus_finish in H.
+  destruct (Nat.eqb_spec k 0) as [E0|N0].
+  { injection H as <-. split; [lia|]. split; [now rewrite E0 | intros i []]. }
+  destruct cs as [|c cs']; [discriminate|]. injection H as H.
+  set (cs := c :: cs') in *.
+  set (walk := sus_walk (firstn np cs) 0 ptrs) in *.
   assert (Lwalk : length walk = k) by (unfold walk; rewrite walk_length; exact Lptrs).
   assert (Pp : Permutation sel (gather 0%nat order walk)).
   { rewrite <- H. apply permute_Permutation. unfold gather. rewrite map_length, Lwalk. exact Hperm. }
-  split; [lia|]. split.
+  assert (Lpos : (0 < length order)%nat) by (rewrite <- Lcs; unfold cs; cbn [length]; lia).
+  split; [intros _; exact Lpos|]. split.
   - rewrite <- H, permute_length, (Permutation_length Hperm). apply seq_length.
   - intros i Hi. apply (Permutation_in _ Pp) in Hi. unfold gather in Hi. apply in_map_iff in Hi as (ix & E & Hix).
     rewrite <- E. apply nth_In.
-    pose proof (walk_bound ptrs (c :: cs') 0%nat) as Hb. fold walk in Hb. rewrite Forall_forall in Hb.
-    specialize (Hb ix Hix). cbn [length] in Hb, Lcs. lia.
+    pose proof (walk_bound ptrs (firstn np cs) 0%nat) as Hb. fold walk in Hb. rewrite Forall_forall in Hb.
+    specialize (Hb ix Hix). cbn beta in Hb. rewrite firstn_length in Hb. lia.
 Qed.
 
-Lemma sus_finish_length order k cs ptrs perm sel :
-  sus_finish order k cs ptrs perm = Some sel -> length sel = length perm.
+(** a positive output size: one draw per entry of the shuffle; an output size of zero: no draw, whatever [perm] is
+    (before commit f3dafbe4 the second case did not arise: [length sel = length perm] held outright) *)
+Lemma sus_finish_length order k np cs ptrs perm sel :
+  sus_finish order k np cs ptrs perm = Some sel -> length sel = if Nat.eqb k 0 then 0%nat else length perm.
 Proof.
-  unfold sus_finish. destruct cs; [discriminate|]. destruct (Nat.eqb k 0); [discriminate|].
+  unfold sus_finish. destruct (Nat.eqb k 0); [intros H; now injection H as <-|]. destruct cs; [discriminate|].
   intros H. injection H as <-. apply permute_length.
+Qed.
+
+(** the walk along the first [n] cumulative sums stops where the walk along all of them does, or at position n-1 *)
+Lemma locate_firstn p : forall cs n, locate (firstn n cs) p = Nat.min (locate cs p) (n - 1).
+Proof.
+  induction cs as [|c t IH]; intros n; [now rewrite firstn_nil|].
+  destruct n as [|[|m]]; [cbn [firstn locate]; lia | cbn [firstn locate]; lia |].
+  destruct t as [|c' t']; [cbn [firstn locate]; lia|].
+  specialize (IH (S m)). change (firstn (S (S m)) (c :: c' :: t')) with (c :: firstn (S m) (c' :: t')).
+  change (firstn (S m) (c' :: t')) with (c' :: firstn m t') in *.
+  rewrite !locate_cons2. destruct (Qle_bool c p); [rewrite IH; lia | lia].
 Qed.
 
 Lemma fcumsum_from_length l : forall acc, length (fcumsum_from acc l) = length l.
@@ -50,10 +64,10 @@ Proof. induction l as [|x l IH]; intros acc; [reflexivity|]. cbn [fcumsum_from l
 Lemma fcumsum_length l : length (fcumsum l) = length l.
 Proof. destruct l as [|x l]; [reflexivity|]. cbn [fcumsum length]. now rewrite fcumsum_from_length. Qed.
 
-(** the ideal sample only contains entries of [order] *)
+(** the ideal sample only contains entries of [order] (first conjunct: formerly 0 < k, see [sus_finish_spec]) *)
 Lemma sus_q_members (p : list Q) order k off perm sel :
   Permutation perm (seq 0 k) -> sus_q p order k off perm = Some sel ->
-  (0 < k)%nat /\ length sel = k /\ forall i, In i sel -> In i order.
+  ((0 < k)%nat -> (0 < length order)%nat) /\ length sel = k /\ forall i, In i sel -> In i order.
 Proof.
   intros Hperm H. unfold sus_q in H. eapply sus_finish_spec; [exact H | | | exact Hperm].
   - unfold cumsum, gather. now rewrite cumsum_from_length, map_length.
@@ -63,7 +77,7 @@ Qed.
 (** ... and so does the binary64 sample *)
 Lemma sus_f_members (p : list float) order k off perm sel :
   Permutation perm (seq 0 k) -> sus_f p order k off perm = Some sel ->
-  (0 < k)%nat /\ length sel = k /\ forall i, In i sel -> In i order.
+  ((0 < k)%nat -> (0 < length order)%nat) /\ length sel = k /\ forall i, In i sel -> In i order.
 Proof.
   intros Hperm H. unfold sus_f in H. eapply sus_finish_spec; [exact H | | | exact Hperm].
   - unfold gather. now rewrite map_length, fcumsum_length, map_length.
@@ -93,9 +107,14 @@ Proof.
 Qed.
 
 (** * 1. RealSelectionConfiguration, ideal pointers *)
+(** [order] = decn.argsort()[::-1] is a DESCENDING order of the weights ([nonincr]): since commit eabf766a the walk is
+    confined to the first [npos p] positions of that order, which are the elements of positive weight only when the order
+    is descending; for an arbitrary permutation the statement is false of the repaired code (see
+    [cfg_real_q_needs_descending_order] below).  The conclusion is unchanged. *)
 Theorem cfg_real_q_spec : forall nc np (p : list Q) order off perm pms r,
   let k := (nc * np)%nat in
   Forall (fun x => 0 <= x) p -> 0 < sumQ p -> Permutation order (seq 0 (length p)) ->
+  nonincr (gather 0 p order) = true ->
   0 <= off -> off < sumQ p / inject_Z (Z.of_nat k) -> Permutation perm (seq 0 k) ->
   (forall sel, sus_q p order k off perm = Some sel -> draws_ok np (zs sel) pms) ->
   cfg_real_q nc np p order off perm pms = Some r ->
@@ -106,10 +125,10 @@ Theorem cfg_real_q_spec : forall nc np (p : list Q) order off perm pms r,
       <= Qceiling (nth i p 0 * inject_Z (Z.of_nat k) / sumQ p)%Q)%Z) /\
   local_opt np r.
 Proof.
-  intros nc np p order off perm pms r k Hp Htot Hord Hoff0 Hoff Hperm Hdraw Hcfg.
+  intros nc np p order off perm pms r k Hp Htot Hord Hsort Hoff0 Hoff Hperm Hdraw Hcfg.
   unfold cfg_real_q in Hcfg. destruct (shape_ok nc np) eqn:Hs; [|discriminate].
   destruct (shape_ok_pos _ _ Hs) as (_ & _ & Hk). fold k in Hk, Hcfg.
-  destruct (sus_q_spec p order k off perm Hp Htot Hord Hk Hoff0 Hoff Hperm) as (sel & Hsel & Lsel & Hcnt).
+  destruct (sus_q_spec p order k off perm Hp Htot Hord Hsort (fun _ => conj Hoff0 Hoff) Hperm) as (sel & Hsel & Lsel & Hcnt).
   destruct (sus_q_members p order k off perm sel Hperm Hsel) as (_ & _ & Hmem).
   rewrite Hsel in Hcfg.
   assert (Lz : length (zs sel) = (nc * np)%nat) by (rewrite zs_length; exact Lsel).
@@ -122,6 +141,26 @@ Proof.
     destruct (Hcnt i Ri) as [_ H0]. specialize (H0 Hz). unfold count_nat in H0.
     apply (count_occ_In Nat.eq_dec) in Hi. lia.
   - intros i Hi. rewrite (count_z_Permutation _ _ _ Pr), count_zs. exact (proj1 (Hcnt i Hi)).
+Qed.
+
+(** why [cfg_real_q_spec] now asks for a descending order: with the ascending order [0;1] of the weights [0;1] every other
+    hypothesis holds, and the single parent drawn is the individual of weight zero *)
+Lemma cfg_real_q_needs_descending_order :
+  exists nc np (p : list Q) order off perm pms r,
+    let k := (nc * np)%nat in
+    Forall (fun x => 0 <= x) p /\ 0 < sumQ p /\ Permutation order (seq 0 (length p)) /\
+    0 <= off /\ off < sumQ p / inject_Z (Z.of_nat k) /\ Permutation perm (seq 0 k) /\
+    (forall sel, sus_q p order k off perm = Some sel -> draws_ok np (zs sel) pms) /\
+    cfg_real_q nc np p order off perm pms = Some r /\ nonincr (gather 0 p order) = false /\
+    exists v, In v r /\ forall i, v = Z.of_nat i -> nth i p 0 == 0.
+Proof.
+  exists 1%nat, 1%nat, [0; 1], [0%nat; 1%nat], 0, [0%nat], [[]; [0%nat]], [0%Z]. cbv zeta.
+  split; [repeat constructor; apply Qle_bool_iff; reflexivity|]. split; [reflexivity|]. split; [reflexivity|].
+  split; [apply Qle_refl|]. split; [reflexivity|]. split; [reflexivity|]. split.
+  - intros sel Hsel y n H. vm_compute in Hsel. injection Hsel as <-. vm_compute in H. injection H as <- <-.
+    cbn [firstn skipn length all_pairs]. split; repeat constructor.
+  - split; [vm_compute; reflexivity|]. split; [reflexivity|]. exists 0%Z. split; [now left|].
+    intros i Hi. assert (i = 0%nat) as -> by lia. reflexivity.
 Qed.
 
 (** * 2. RealSelectionConfiguration, binary64 pointers *)
@@ -138,7 +177,8 @@ Proof.
   destruct (shape_ok_pos _ _ Hs) as (Hnc & Hnp & _).
   destruct (sus_f p order (nc * np) off perm) as [sel|] eqn:Hsel; [|discriminate].
   assert (Lz : length (zs sel) = (nc * np)%nat).
-  { rewrite zs_length. unfold sus_f in Hsel. rewrite (sus_finish_length _ _ _ _ _ _ Hsel). exact Lperm. }
+  { rewrite zs_length. unfold sus_f in Hsel. rewrite (sus_finish_length _ _ _ _ _ _ _ Hsel).
+    destruct (Nat.eqb_spec (nc * np) 0) as [E0|_]; [now rewrite E0 | exact Lperm]. }
   destruct (xc_tail_spec nc np (zs sel) pms r Lz (Hdraw sel eq_refl) Hcfg) as (Lr & Pr & _ & Hopt).
   split; [exact Lr|]. split; [exact Hnc|]. split; [exact Hnp|]. split; [exact Hopt|]. exists sel. split; [reflexivity | exact Pr].
 Qed.
@@ -169,8 +209,47 @@ Proof.
   specialize (Hmem i Hi). apply (Permutation_in _ Hord) in Hmem. apply in_seq in Hmem. lia.
 Qed.
 
+(** since commit eabf766a: whatever the rounding, every entry of the configuration is an individual of positive weight (for the
+    descending order the code computes) — the configuration-level form of [sus_f_no_zero_weight] *)
+Theorem cfg_real_f_no_zero_weight : forall nc np (p : list float) order off perm pms r,
+  let pq := map f2q p in
+  Forall (fun x => 0 <= x) pq -> 0 < sumQ pq -> Permutation order (seq 0 (length p)) ->
+  nonincr (gather 0 pq order) = true -> Permutation perm (seq 0 (nc*np)) ->
+  (forall sel, sus_f p order (nc*np) off perm = Some sel -> draws_ok np (zs sel) pms) ->
+  cfg_real_f nc np p order off perm pms = Some r ->
+  (forall v, In v r -> exists i, v = Z.of_nat i /\ (i < length p)%nat /\ 0 < nth i pq 0) /\
+  (forall i, nth i pq 0 == 0 -> count_z (Z.of_nat i) r = 0%nat).
+Proof.
+  intros nc np p order off perm pms r pq Hp Htot Hord Hsort Hperm Hdraw Hcfg.
+  assert (Lperm : length perm = (nc * np)%nat) by (rewrite (Permutation_length Hperm); apply seq_length).
+  destruct (cfg_real_f_shape_strong nc np p order off perm pms r Hcfg Hdraw Lperm) as (_ & _ & _ & _ & sel & Hsel & Pr).
+  destruct (sus_f_no_zero_weight p order _ off perm sel Hp Htot Hord Hsort Hperm Hsel) as [Hpos Hzero].
+  split.
+  - intros v Hv. apply (Permutation_in _ Pr) in Hv. apply In_zs in Hv as (i & E & Hi). exists i. split; [exact E|].
+    exact (Hpos i Hi).
+  - intros i Hz. rewrite (count_z_Permutation _ _ _ Pr), count_zs. exact (Hzero i Hz).
+Qed.
+
 (** when the cumulative sums are exact and every binary64 pointer falls into the cell of the ideal pointer, the binary64
-    configuration is the ideal one (to which [cfg_real_q_spec] applies); 0 < k is not needed: the setters guarantee it *)
+    configuration is the ideal one (to which [cfg_real_q_spec] applies); 0 < k is not needed: the setters guarantee it.
+    Since commit eabf766a the cells that matter are those of the first [npos pq] cumulative sums (the walk does not go
+    further); [cfg_real_f_partial] below keeps the former statement, with the cells of all cumulative sums. *)
+Theorem cfg_real_f_partial_pos : forall nc np (p : list float) order off perm pms,
+  let k := (nc * np)%nat in
+  let pq := map f2q p in
+  let cs := firstn (npos pq) (cumsum (gather 0 pq order)) in
+  Forall2 Qeq (map f2q (fcumsum (gather 0%float p order))) (cumsum (gather 0 pq order)) ->
+  0 <= sumQ pq / inject_Z (Z.of_nat k) ->
+  StronglySorted Qle (map f2q (sus_ptrs_f (fsum p) k off)) ->
+  Forall2 (fun a b => locate cs a = locate cs b) (map f2q (sus_ptrs_f (fsum p) k off)) (sus_ptrs_q (sumQ pq) k (f2q off)) ->
+  cfg_real_f nc np p order off perm pms = cfg_real_q nc np (map f2q p) order (f2q off) perm pms.
+Proof.
+  intros nc np p order off perm pms k pq cs Ecs Hd Hs Hsame.
+  unfold cfg_real_f, cfg_real_q. destruct (shape_ok nc np) eqn:Hok; [|reflexivity].
+  rewrite (sus_f_partial p order (nc * np) off perm Ecs Hd Hs Hsame). reflexivity.
+Qed.
+
+(** the former statement (cells of all cumulative sums): still true, a consequence of the one above by [locate_firstn] *)
 Theorem cfg_real_f_partial : forall nc np (p : list float) order off perm pms,
   let k := (nc * np)%nat in
   let pq := map f2q p in
@@ -182,9 +261,8 @@ Theorem cfg_real_f_partial : forall nc np (p : list float) order off perm pms,
   cfg_real_f nc np p order off perm pms = cfg_real_q nc np (map f2q p) order (f2q off) perm pms.
 Proof.
   intros nc np p order off perm pms k pq cs Ecs Hd Hs Hsame.
-  unfold cfg_real_f, cfg_real_q. destruct (shape_ok nc np) eqn:Hok; [|reflexivity].
-  destruct (shape_ok_pos _ _ Hok) as (_ & _ & Hk).
-  rewrite (sus_f_partial p order (nc * np) off perm Ecs Hk Hd Hs Hsame). reflexivity.
+  apply cfg_real_f_partial_pos; [exact Ecs | exact Hd | exact Hs |].
+  eapply Forall2_impl_in; [exact Hsame|]. cbn beta. intros a b _ _ E. fold pq. fold cs. rewrite !locate_firstn. now rewrite E.
 Qed.
 
 (** * 3. SubsetMateSelectionConfiguration *)
